@@ -936,10 +936,12 @@ func TestVerif_C02(t *testing.T) {
 			}
 		}
 	}
+	// ---- the credential kind x name-spelling family (c02ident.go)
+	identCases, identStates := c02IdentFamily(t, res, keys, hit)
 	// ---- Coq cases
 	var sb strings.Builder
 	sb.WriteString(coqCaseHeader)
-	sb.WriteString("From KM Require Import Base.Cases Model.Auth Model.Certgen Model.CertgenCases Model.CertgenObs.\nOpen Scope N_scope.\n")
+	sb.WriteString("From KM Require Import Base.Cases Model.Auth Model.Certgen Model.CertgenCases Model.CertgenObs Model.CertgenIdent Model.CertgenIdentObs.\nOpen Scope N_scope.\n")
 	host := "keymaster.example"
 	tplCoq := func(l []sshExtension) string {
 		var p []string
@@ -1034,6 +1036,9 @@ func TestVerif_C02(t *testing.T) {
 		sb.WriteString(fmt.Sprintf("(%s, %s, %s)", coqBool(l.noNorm), coqBS(l.submitted), coqBS(l.subject)))
 	}
 	sb.WriteString("].\nDefinition c02_login_mismatches := Eval vm_compute in mismatches (fun c : bool * bs * bs => let '(d, s, sub) := c in negb (match sub with [] => true | _ => bs_eqb (normalise None d s) sub end)) logins.\nPrint c02_login_mismatches.\n")
+	identCoq, identIdx := c02IdentCoq(identCases, identStates, keys, host)
+	sb.WriteString(identCoq)
+	ioutil.WriteFile(filepath.Join(verifOut(), "CasesC02ident.idx"), []byte(identIdx), 0644)
 	if err := ioutil.WriteFile(filepath.Join(verifOut(), "CasesC02.v"), []byte(sb.String()), 0644); err != nil {
 		t.Fatal(err)
 	}
